@@ -122,6 +122,19 @@ def _client_case(ops, impl):
                 if st["connclose"] != wantc:
                     st["viol"].append((i, "C15", f"connection closed {st['connclose']} times, expected {wantc}"))
             # (the handler completions reported on this line are accounted below)
+        if t[1] == "dolate":   # Do whose response arrives after Do has started waiting
+            if f.get("do") == "returned-before-its-response-arrived":
+                st["viol"].append((i, "C10", f"Do returned nil before its response had arrived (h{t[5]}): a wait handler left "
+                                   "'already processed' in the pool by an earlier Do whose Start failed"))
+            t = ["CL", "do"] + t[2:]
+        if t[1] == "dofail":   # Do on the F12 schedule: response handled inside Start's first Write, which then fails
+            st["delivered"].append(t[4])
+            if f.get("ret") not in ("ok", None) and any(c_.split(":", 2)[0] == "h" + t[5] for c_ in cb):
+                st["f12"] = st.get("f12", set()) | {t[5]}
+                st["viol"].append((i, "C10", f"Start returned an error ({f['ret']}) after its handler h{t[5]} had already "
+                                   "been invoked: the response arrived while Start was inside Connection.Write, "
+                                   "which then failed"))
+            t = ["CL", "start", t[2], t[3], t[5]]
         if t[1] == "do":
             st["delivered"].append(t[4])
             if f.get("do") == "before-callback":
@@ -146,6 +159,11 @@ def _client_case(ops, impl):
                                                "which then failed"))
                         else:
                             s_["ok"] = False
+                        # the error path of Start deletes by id: a transaction started meanwhile under the same id
+                        # loses its registration (F15)
+                        for h2, s2 in st["started"].items():
+                            if h2 != h and s2["id"] == s_["id"] and s2["ok"] and h2 not in st["calls"] and s2["at"] > s_["at"]:
+                                s2["lost_by"] = h
         if t[1] == "start":
             ok = f.get("ret") == "ok"
             if st["closed"] and (f.get("ret") != "client-closed" or wr):
@@ -195,7 +213,9 @@ def _client_case(ops, impl):
             s_ = st["started"].get(h)
             if st["calls"][h] > 1:
                 st["viol"].append((i, "C10", f"handler h{h} invoked twice"))
-            if s_ is None or not s_["ok"]:
+            if h in st.get("f12", ()):
+                pass   # reported above as the F12 schedule
+            elif s_ is None or not s_["ok"]:
                 st["viol"].append((i, "C10", f"handler h{h} invoked although Start returned an error"))
             elif s_["id"] != cid:
                 st["viol"].append((i, "C12", f"handler h{h} (id {s_['id']}) received an event for id {cid}"))
@@ -216,7 +236,12 @@ def _client_case(ops, impl):
         for h, s_ in st["started"].items():
             if s_["ok"] and h not in st["calls"]:
                 why = "pending-at-Close" if h in st["pending_at_close"] else "never completed"
-                st["viol"].append((s_["at"], "C10", f"handler h{h} never invoked ({why}) id={s_['id']}"))
+                if s_.get("lost_by"):
+                    st["viol"].append((s_["at"], "C10", f"handler h{h} never invoked although its Start returned nil: its "
+                                       f"registration was deleted by the failing first Write of an earlier Start (h{s_['lost_by']}) "
+                                       "of the same transaction id, whose response had arrived while that Write was in flight"))
+                else:
+                    st["viol"].append((s_["at"], "C10", f"handler h{h} never invoked ({why}) id={s_['id']}"))
     return st["viol"]
 
 
@@ -499,6 +524,7 @@ PROPS = {
                      "Stun.ClientProofs.run_sinv", "Stun.ClientProofs.close_clears", "Stun.ClientProofs.callback_sync", "Stun.C10L2.step2_l1", "Stun.C10L2.run2_l1", "Stun.C10L2.k1_history",
                      "Stun.C10L2.k1_history_other_start_untouched", "Stun.C10L2.blocked_write_failure_alone",
                      "Stun.C10L2.f12_start_error_after_handler_ran", "Stun.C10L2.start_blocked_failure_alone",
+                     "Stun.C10L2.f15_same_id_restart_loses_handler",
                      "Stun.C10L2.k1b_history", "Stun.C10L2.agent_start_failure_alone", "Stun.C10L2.agent_start_ok_alone",
                      "Stun.C10L2.l2_handler_at_most_once", "Stun.C10L2.l2_never_started_never_invoked",
                      "Stun.C10L2.l2_invocation_from_start", "Stun.ClientProofs.run2_spec", "Stun.ClientProofs.step2_spec",
